@@ -275,6 +275,8 @@ def judge_write(step, rep, pre, post, names, src_dir, sh, case):
     t0 = layersim.parse_toml(v0["toml"]) if v0["toml"] is not None else (None, None)
     t1 = layersim.parse_toml(v1["toml"]) if v1["toml"] is not None else (None, None)
     op = step["op"]
+    if step.get("swap"):              # used by C20 only: exec.d re-arranged from its own files; compared across processes, not judged here
+        return "err" not in rep
     if op == "env_to_metadata":       # used by C20 only: the derived metadata is compared across processes, not judged here
         return True
     if op in ("write_metadata", "write_metadata_typed"):
@@ -340,7 +342,9 @@ def enc_step(step, src_dir):
     elif s["op"] == "write_env":
         s["entries"] = enc_entries(s["entries"])
     elif s["op"] == "write_exec_d":
-        s["programs"] = [[p, os.path.join(src_dir, src)] for p, src in s["programs"]]
+        # "@layer/..." names a file inside the layer itself (e.g. an existing exec.d program)
+        layers = os.path.join(os.path.dirname(src_dir), "layers")
+        s["programs"] = [[p, os.path.join(layers, s["name"], src[len("@layer/"):]) if src.startswith("@layer/") else os.path.join(src_dir, src)] for p, src in s["programs"]]
     return s
 
 
